@@ -20,6 +20,14 @@
      D                                 get_dialect                      -> d
      JL wlint / JS a b / JG sug / JH hashes(decimal)      to_json       -> the JSON text (UTF-8)
      PL cps / PS cps / PG cps / PH cps                    from_json then to_json -> JSON text | none
+     DC lang | text | pretoks | dicts | items   Model/C16Ctx.v: the Document under each user dictionary (tokens of the
+                                       dictionary-free parse + get_word_metadata per word) and which (lint, dictionary)
+                                       items share an ignore context -> dump ; dump ... # class class ...
+     TT text | core result            to_title_case (Model/C16Api.v xstep; the composition computed on harper_core) -> T cps
+     LE text | alts  /  IE text | alts  is_likely_english / isolate_english: per candidate dictionary the answer of
+                                       harper_core; the model says which dictionary the linter uses  -> b 0|1  /  T cps
+     DCFG                              get_default_lint_config_as_json -> cfgstring
+     IS kind ... | IS !                import_stats_file of a file with these records / a broken file -> ok | err
    A model-side lookup that the case line cannot answer (dictionary or config the harness did not
    offer) prints MODEL-FAIL, which shows up as a disagreement. *)
 module SS = Stdlib.String
@@ -136,10 +144,105 @@ let read_alts cur =
     let ls = times m (fun () -> let r = read_rlint cur in let h = n_of_int (take cur) in (r, h)) in
     (ws, ls))
 
+(* ---- DC: documents and contexts ---- *)
+let opt_n (i : int) : n option = if i < 0 then None else Some (n_of_int i)
+let read_kind cur : tkind =
+  match take cur with
+  | 0 -> KWord (opt_n (take cur))
+  | 1 -> KPunct (n_of_int (take cur))
+  | 2 -> let t = take cur in KQuote (if t < 0 then None else Some (nat_of_int t))
+  | 3 -> KDecade
+  | 4 -> let v = n_of_int (take cur) in let s = opt_n (take cur) in let r = n_of_int (take cur) in
+         let p = nat_of_int (take cur) in KNumber (v, s, r, p)
+  | 5 -> KSpace (nat_of_int (take cur))
+  | 6 -> KNewline (nat_of_int (take cur))
+  | 7 -> KEmail | 8 -> KUrl | 9 -> KHostname | 10 -> KUnlintable | 11 -> KParagraphBreak | 12 -> KRegexish
+  | _ -> failwith "token kind"
+let read_token cur : token =
+  let a = take cur in let b = take cur in
+  { tspan = { sstart = nat_of_int a; send = nat_of_int b }; tkd = read_kind cur }
+let show_opt = function None -> "-1" | Some c -> string_of_int (int_of_n c)
+let show_kind = function
+  | KWord m -> "0 " ^ show_opt m
+  | KPunct p -> "1 " ^ string_of_int (int_of_n p)
+  | KQuote t -> "2 " ^ (match t with None -> "-1" | Some n -> string_of_int (int_of_nat n))
+  | KDecade -> "3"
+  | KNumber (v, s, r, p) -> SS.concat " " ["4"; string_of_int (int_of_n v); show_opt s; string_of_int (int_of_n r); string_of_int (int_of_nat p)]
+  | KSpace n -> "5 " ^ string_of_int (int_of_nat n)
+  | KNewline n -> "6 " ^ string_of_int (int_of_nat n)
+  | KEmail -> "7" | KUrl -> "8" | KHostname -> "9" | KUnlintable -> "10" | KParagraphBreak -> "11" | KRegexish -> "12"
+let show_token (t : token) : SS.t =
+  SS.concat " " [string_of_int (int_of_nat t.tspan.sstart); string_of_int (int_of_nat t.tspan.send); show_kind t.tkd]
+let handle_dc (f : int -> SS.t) : SS.t =
+  let lang = if int_of_string (f 0) = 0 then Plain else Markdown in
+  let t = read_text (ref (ints (f 1))) in
+  let cur = ref (ints (f 2)) in
+  let ntok = take cur in
+  let pre = times ntok (fun () -> read_token cur) in
+  let cur = ref (ints (f 3)) in
+  let nd = take cur in
+  let metas : (int * n list, n option) Stdlib.Hashtbl.t = Stdlib.Hashtbl.create 64 in
+  (* the model's dict = (WordId, spelling) list; here the id is the number of the dictionary, which is
+     how word_meta recognises the dictionary it is asked about *)
+  let dicts = SL.mapi (fun i () ->
+      let ws = read_words cur in
+      let m = take cur in
+      ignore (times m (fun () -> let w = read_text cur in let c = take cur in
+                                 Stdlib.Hashtbl.replace metas (i, w) (opt_n c)));
+      (i, ws)) (times nd (fun () -> ())) in
+  let dict_of i : (n * n list) list = SL.map (fun w -> (n_of_int i, w)) (SL.assoc i dicts) in
+  let dict_index (d : (n * n list) list) : int =
+    match d with
+    | (k, _) :: _ -> int_of_n k
+    | [] -> (match SL.find_opt (fun (_, ws) -> ws = []) dicts with Some (i, _) -> i | None -> failwith "word_meta: empty dictionary not offered") in
+  let pre_tokens (t' : n list) (lg : language) : token list =
+    if t' <> t || lg <> lang then failwith "pre_tokens: asked for another document"; pre in
+  let word_meta (d : (n * n list) list) (w : n list) : n option =
+    match Stdlib.Hashtbl.find_opt metas (dict_index d, w) with
+    | Some m -> m
+    | None -> failwith "word_meta: word without an answer" in
+  let cur = ref (ints (f 4)) in
+  let ni = take cur in
+  let items = times ni (fun () -> let l = read_rlint cur in let di = take cur in (l, dict_of di)) in
+  let dumps = SL.map (fun (i, _) ->
+      match document pre_tokens word_meta t lang (dict_of i) with
+      | Ok dc -> SS.concat "," (SL.map show_token dc.dtoks)
+      | Panic _ -> "P") dicts in
+  let classes = SL.map (function Some c -> string_of_int (int_of_nat c) | None -> "P")
+                  (run_ctx_classes pre_tokens word_meta t lang items) in
+  SS.concat " ; " dumps ^ " # " ^ SS.concat " " classes
+
 let st : state ref = ref (new0 [] O)
-let do_step (c : call) : out =
-  let (st', o) = step !curated word_id raw_lints ctx !st c in
+(* what the case line offers to the Section variables of Model/C16Api.v *)
+let tt_answer : (n list * n list) option ref = ref None
+let english_alts : (n list list * n list) list ref = ref []     (* dictionary -> answer (a bool as [0]/[1]) *)
+let title_case (t : n list) : n list =
+  match !tt_answer with Some (t', r) when t' = t -> r | _ -> failwith "title_case: asked for another text"
+let english_answer (t : n list) (d : (n * n list) list) : n list =
+  if t <> !cur_text then failwith "english: asked for another text";
+  match SL.assoc_opt (dict_key d) !english_alts with
+  | Some r -> r
+  | None -> failwith "english: the model's lint dictionary is none of the dictionaries offered"
+let likely_english t d = (match english_answer t d with [c] -> int_of_n c = 1 | _ -> failwith "likely_english: not a bool")
+let isolate t d = english_answer t d
+(* a statistics record on the wire of the driver: one byte, its kind (the harness reads the kinds off the real file) *)
+let ser (r : stat_record) : n list = [n_of_int (kind_index r.sr_kind)]
+let de (b : n list) : stat_record option =
+  match b with
+  | [c] when int_of_n c < 10 ->
+      Some { sr_kind = kinds.(int_of_n c); sr_span = { sstart = O; send = O }; sr_text = []; sr_lang = Plain; sr_dict = [] }
+  | _ -> None
+let do_xstep (c : xcall) : xout =
+  let (st', o) = xstep !curated word_id raw_lints ctx title_case likely_english isolate ser de !st c in
   st := st'; o
+let do_step (c : call) : out =
+  match do_xstep (XBase c) with XOut o -> o | _ -> failwith "xstep (XBase _) did not answer with XOut"
+let read_english_alts cur (is_bool : bool) =
+  let n = take cur in
+  times n (fun () ->
+    let ws = SL.sort compare (read_words cur) in
+    let r = if is_bool then [n_of_int (take cur)] else read_text cur in
+    (ws, r))
 
 let unit_out = function OUnit -> "ok" | OErr -> "err" | OPanic _ -> "P" | _ -> "?"
 
@@ -204,6 +307,25 @@ let handle (l : SS.t) : SS.t =
        | OStats rs -> SS.concat " " (SL.map string_of_int (SL.length rs :: SL.map (fun r -> kind_index r.sr_kind) rs))
        | _ -> "?")
   | "D" -> (match do_step CGetDialect with ODialect d -> string_of_int (int_of_nat d) | _ -> "?")
+  | "DC" -> handle_dc f
+  | "TT" ->
+      let t = text_of_ints (ints (f 0)) in
+      tt_answer := Some (t, text_of_ints (ints (f 1)));
+      (match do_xstep (XToTitleCase t) with XOut (OText r) -> SS.trim ("T " ^ cps r) | _ -> "?")
+  | "LE" ->
+      let t = text_of_ints (ints (f 0)) in
+      cur_text := t; english_alts := read_english_alts (ref (ints (f 1))) true;
+      (match do_xstep (XIsLikelyEnglish t) with XBool b -> if b then "b 1" else "b 0" | _ -> "?")
+  | "IE" ->
+      let t = text_of_ints (ints (f 0)) in
+      cur_text := t; english_alts := read_english_alts (ref (ints (f 1))) false;
+      (match do_xstep (XIsolateEnglish t) with XOut (OText r) -> SS.trim ("T " ^ cps r) | _ -> "?")
+  | "DCFG" -> (match do_xstep XGetDefaultConfig with XOut (OConfig c) -> string_of_cfg c | _ -> "?")
+  | "IS" ->
+      let file =
+        if SS.trim body = "!" then [n_of_int 200; n_of_int 200; n_of_int 10]
+        else SL.concat (SL.map (fun k -> [n_of_int k; n_of_int 10]) (ints body)) in
+      (match do_xstep (XImportStats file) with XOut o -> unit_out o | _ -> "?")
   | "JL" -> utf8 (print_wlint (read_wlint (ref (ints (f 0)))))
   | "JS" -> (match ints (f 0) with [a; b] -> utf8 (print_span { sstart = nat_of_int a; send = nat_of_int b }) | _ -> "?")
   | "JG" -> utf8 (print_wsuggestion (read_sug (ref (ints (f 0)))))
